@@ -491,7 +491,8 @@ func runC01(c *Ctx) {
 	}
 
 	// ---------------------------------------------------------------- R4
-	c.rule("R4", "the id written to the wire is the registered id, at the id offset of the framing", 6)
+	c.rule("R4", "the id written to the wire is the registered id, at the id offset of the framing; no 16-bit header write in the upstream packages outside the functions the id rules cover", 20)
+	checkHeaderWritersCovered(c)
 	if inserter != nil {
 		// inserter returns the inserted id as result 0
 		okRet := false
